@@ -119,6 +119,23 @@ def _f11(cex):
         "NEVER" in cex.get("reasons", [])
 
 
+@matcher("f12_all_zero_delta_min")
+def _f12(cex):
+    return cex.get("kind") == "derived_curve_all_zero_panics" and cex.get("dmin_all_zero") is True
+
+
+@matcher("f12_c20")
+def _f12c20(cex):
+    return cex.get("kind") == "derived_curve_all_zero_panics_c20" and cex.get("dmin_all_zero") is True
+
+
+@matcher("f2_c20_spurious_step_underflow")
+def _f2c20(cex):
+    return cex.get("kind") == "profile_dependent_or_panic" and cex.get("tua_never_releases") is True and \
+        "F2" in cex.get("reasons", []) and cex.get("analysis") in ("fp_np", "fp_lp", "edf_np", "edf_lp") and \
+        cex.get("checked") == "panic"
+
+
 @matcher("f5_wcet_extrapolate_zero")
 def _f5(cex):
     return cex.get("kind") == "wcet_extrapolate_zero"
